@@ -2513,7 +2513,7 @@ bool unitsAreEquivalent(const ModelPtr &model,
 
     // Remove "dimensionless" from base unit testing.
     unitMap.erase("dimensionless");
-    static const std::regex fullStopAtEndRegex(".$");
+    static const std::regex fullStopAtEndRegex("\\.$");
 
     bool status = true;
     for (const auto &basePair : unitMap) {
